@@ -60,6 +60,12 @@ type LeafCase struct {
 	// EmptyFile (set leaves, AutoSetToSlice on): the file assigns the leaf an
 	// explicitly empty list; the file layer's value is the empty set.
 	EmptyFile bool `json:"empty_file,omitempty"`
+	// PreReg (scalar leaves, flag modes cmdline and ownset): the APPLICATION
+	// defined this leaf's flag itself (std flag type matching the leaf, its
+	// own default and help text) on the FlagSet before ez's flag source
+	// registered the rest; the flag is on the command line iff the flag bit
+	// of Layers is set.
+	PreReg bool `json:"pre_reg,omitempty"`
 }
 
 // RewLeaf is one leaf in a later version of the config file.
@@ -102,7 +108,7 @@ type C18Case struct {
 	// expected stack keeps using the defaults as they were passed.
 	ScribbleBefore int        `json:"scribble_before,omitempty"`
 	Watch          bool       `json:"watch"`          // Params.WatchConfigFile
-	FlagMode       string     `json:"flag_mode"`      // explicit (Params.FlagSource on a fresh FlagSet) | cmdline (flag.CommandLine + os.Args)
+	FlagMode       string     `json:"flag_mode"`      // explicit (flag.NewSetWithArgs) | ownset (the application's FlagSet in a flag.Set literal) | cmdline (flag.CommandLine + os.Args)
 	FlagCfg        bool       `json:"flag_cfg"`       // cmdline: pass DefaultFlagNameConfig() explicitly instead of nil
 	Callbacks      bool       `json:"callbacks"`      // register OnNewConfig / OnWatchedError
 	FileState      string     `json:"file_state"`     // valid | missing | malformed | badext
@@ -141,10 +147,14 @@ func genC18(watch bool) func(t *rapid.T) C18Case {
 		}
 		c.Flatten = rapid.Bool().Draw(t, "flatten")
 		c.NoSetList = rapid.IntRange(0, 2).Draw(t, "no_set_list") == 2
-		if rapid.IntRange(0, 3).Draw(t, "flagmode") == 0 {
+		switch rapid.IntRange(0, 4).Draw(t, "flagmode") {
+		case 0:
 			c.FlagMode = "cmdline"
 			c.FlagCfg = rapid.Bool().Draw(t, "flagcfg")
-		} else {
+		case 1:
+			c.FlagMode = "ownset"
+			c.FlagCfg = rapid.Bool().Draw(t, "flagcfg")
+		default:
 			c.FlagMode = "explicit"
 		}
 		c.Callbacks = rapid.IntRange(0, 4).Draw(t, "callbacks") != 0
@@ -359,6 +369,16 @@ func genC18(watch bool) func(t *rapid.T) C18Case {
 				}
 			}
 		}
+		// the application defines some of the flags itself (possible where the
+		// FlagSet exists before dials registers: flag.CommandLine, or its own
+		// FlagSet handed over in a flag.Set)
+		if c.FlagMode != "explicit" && rapid.IntRange(0, 2).Draw(t, "prereg_any") != 2 {
+			for i := range td.leaves {
+				if preRegKind(td.leaves[i].kind) && rapid.IntRange(0, 2).Draw(t, "prereg") == 0 {
+					c.Leaves[i].PreReg = true
+				}
+			}
+		}
 		c.ArgRot = rapid.IntRange(0, 7).Draw(t, "arg_rot")
 
 		if watch && c.FileState == "valid" && !noPath {
@@ -499,7 +519,12 @@ func validateCase(c C18Case, td *typeDef) string {
 	if strings.ContainsAny(c.Ext, "/\x00") {
 		return "ext"
 	}
-	if c.FlagMode != "explicit" && c.FlagMode != "cmdline" {
+	for i, lc := range c.Leaves {
+		if lc.PreReg && (c.FlagMode == "explicit" || !preRegKind(td.leaves[i].kind)) {
+			return fmt.Sprintf("leaf %d pre_reg", i)
+		}
+	}
+	if c.FlagMode != "explicit" && c.FlagMode != "cmdline" && c.FlagMode != "ownset" {
 		return "flag mode"
 	}
 	if c.Enc != "" && ((c.Type != "plain" && c.Type != "embed") || (c.Enc != "snake" && c.Enc != "kebab" && c.Enc != "upper")) {
@@ -566,6 +591,16 @@ func validateCase(c C18Case, td *typeDef) string {
 		return "base without dir"
 	}
 	return ""
+}
+
+// preRegKind: leaf kinds for which the std flag package has a flag type an
+// application would define itself.
+func preRegKind(k kind) bool {
+	switch k {
+	case kString, kInt, kInt64, kUint16, kDur, kFloat, kBool:
+		return true
+	}
+	return false
 }
 
 func decoderExtKnown(ext string) bool {
@@ -927,19 +962,62 @@ func execCase[T any, TP ez.ConfigWithConfigPath[T]](c C18Case, td *typeDef, bubb
 	case "upper":
 		params.FileFieldNameEncoder = caseconversion.EncodeUpperSnakeCase
 	}
-	if c.FlagMode == "explicit" {
+	// the flags the application defines itself, before dials registers the rest
+	appFlags := func(fs *flag.FlagSet) {
+		const help = "defined by the application, not by dials"
+		for i := range td.leaves {
+			lc := c.Leaves[i]
+			if !lc.PreReg {
+				continue
+			}
+			l := &td.leaves[i]
+			name := l.flag
+			if lc.Alias&bFlag != 0 && l.flagAl != "" {
+				name = l.flagAl
+			}
+			switch l.kind {
+			case kString:
+				fs.String(name, "app-flag-default", help)
+			case kInt:
+				fs.Int(name, 31337, help)
+			case kInt64:
+				fs.Int64(name, 31337, help)
+			case kUint16:
+				fs.Uint(name, 31337, help)
+			case kDur:
+				fs.Duration(name, 31337*time.Second, help)
+			case kFloat:
+				fs.Float64(name, 3133.75, help)
+			case kBool:
+				fs.Bool(name, true, help)
+			}
+		}
+	}
+	switch c.FlagMode {
+	case "explicit":
 		fs, err := dflag.NewSetWithArgs(dflag.DefaultFlagNameConfig(), defaults, argv)
 		if err != nil {
 			return vrt.Violationf("flag.NewSetWithArgs failed on a supported config type: %v", err)
 		}
 		fs.Flags.SetOutput(io.Discard)
 		params.FlagSource = fs
-	} else {
+	case "ownset":
+		// the application's own FlagSet, handed over in a flag.Set literal
+		fs := flag.NewFlagSet("c18app", flag.ContinueOnError)
+		fs.SetOutput(io.Discard)
+		appFlags(fs)
+		src := &dflag.Set{Flags: fs, ParseFunc: func() error { return fs.Parse(argv) }}
+		if c.FlagCfg {
+			src.NameCfg = dflag.DefaultFlagNameConfig()
+		}
+		params.FlagSource = src
+	default:
 		oldCL, oldArgs := flag.CommandLine, os.Args
+		defer func() { flag.CommandLine, os.Args = oldCL, oldArgs }()
 		flag.CommandLine = flag.NewFlagSet("c18", flag.ContinueOnError)
 		flag.CommandLine.SetOutput(io.Discard)
+		appFlags(flag.CommandLine)
 		os.Args = append([]string{"c18"}, argv...)
-		defer func() { flag.CommandLine, os.Args = oldCL, oldArgs }()
 		if c.FlagCfg {
 			params.FlagConfig = dflag.DefaultFlagNameConfig()
 		}
@@ -1056,6 +1134,20 @@ func execCase[T any, TP ez.ConfigWithConfigPath[T]](c C18Case, td *typeDef, bubb
 		}
 		if lc.EqDef == bFlag {
 			labels = append(labels, fmt.Sprintf("layer-equals-default:flag:argv-form=%d", lc.Form&3))
+		}
+	}
+	for i := range td.leaves {
+		lc := c.Leaves[i]
+		if !lc.PreReg {
+			continue
+		}
+		if lc.Layers&bFlag != 0 {
+			labels = append(labels, "app-defined-flag:given")
+			if td.leaves[i].path != pNone {
+				labels = append(labels, "app-defined-flag:given:config-path")
+			}
+		} else {
+			labels = append(labels, "app-defined-flag:not-given")
 		}
 	}
 	for i := range td.leaves {
@@ -1971,7 +2063,8 @@ const c18Rule = "static ez config types (flat with a bool; nested with aliases a
 	"with AutoSetToSlice on, one set leaf in four has a non-empty default and a file (initial, or a later version) that assigns it the explicitly empty list []: on the unmodified tree all four decoders then deliver the empty (non-nil) set, which beats the default like any other file value; " +
 	"crossed with Params.FlattenAnonymousFields on/off, FileFieldNameEncoder nil / snake / kebab / UPPER_SNAKE (untagged and embedded types) and DisableAutoSetToSlice on/off (sets then written as maps); the file layout of embedded leaves per format and option is written down in the harness as read off the unmodified tree " +
 	"(JSON and Cue promote them, yaml.v2 nests them under the lower-cased type name unless FlattenAnonymousFields promotes them, go-toml nests them under the type name, with an encoder every format nests them under the encoded type name except YAML with FlattenAnonymousFields); the path comes from default/env/flag (lower layers and the file itself name decoy files that exist with other content); " +
-	"file valid / missing / malformed / unknown extension / no path at all; flags through Params.FlagSource on a fresh FlagSet (3 in 4) or a fresh flag.CommandLine + os.Args (restored). " +
+	"file valid / missing / malformed / unknown extension / no path at all; flags through Params.FlagSource built by flag.NewSetWithArgs on a fresh FlagSet, through the application's own FlagSet handed over in a flag.Set literal, or through a fresh flag.CommandLine + os.Args (swapped in with the restore deferred first); " +
+	"in the last two the application defines some of the scalar leaves' flags ITSELF beforehand (matching std flag type, own default and help text; also the config-path leaf's flag) - given on the command line such a flag is part of the flags layer like any other (the file it names is the one read), not given its application default must not appear. " +
 	"Oracle by construction: first View() = flag > env > file > default per leaf; the decoder factory saw the path of defaults+env+flags; every Verify receiver deep-equals a full stack (never the file-less intermediate, none at all when the file cannot be read); " +
 	"a rejected full stack gives an error that errors.Is the verifier's and no Dials; after return Events() is empty and neither global callback ran (watch off: inside a synctest bubble after synctest.Wait; watch on: after all library goroutines parked); " +
 	"every config handed out (View() results, Events() values, callback arguments, Verify receivers) is deep-snapshotted when handed out and must still equal its snapshot after every later re-stack and at the end. " +
